@@ -136,6 +136,20 @@ def run(ctx):
                 # (with -fstrict-done-token-generation DONE is never returned "immediately": end() has to report it itself)
                 yield p_, src_, ["-feof-support"] + (["-fstrict-done-token-generation"] if i % 3 == 2 else [])
         rd = c01.validate(ctx, eof_progs(), ["-O0", "-O3"] if quick else ["-O0", "-O1", "-O2", "-O3"], False, "c17", "c01_compiled_trace_is_a_reading", "Props.C01", 0)
+        # known finding: one witness (the generator keeps wildcard / inverted-class heads out of optionals that end the program)
+        import refsem as _rs
+        wp = c01._prog([c01.LIT(b"a"), ("optional", [("match", ("re", ("any",)))])])
+        wsrc = gen.pr_prog(wp)
+        wc = c01.convert(wp, wsrc, ["-feof-support"], "-O1")
+        if wc["verdict"] == "ok":
+            wres = _rs.run_refk([_rs.task_ref(wc["epr"], wc["em"], wc["I"], True)], timeout=300)[0]
+            if wres.startswith("mismatch") and wres.split()[3] == "256":
+                ctx.violation("eof:witness:end-in-accepting-state-behind-rejecting-end-transition",
+                              "end() in a state in which the program is complete returns FAIL when that state rejects the end of input explicitly (%s)" % wres[:60],
+                              {"program": wsrc, "flags": ["-O1", "-feof-support"], "input": [97, 256], "certificate": wres[:300],
+                               "binary": c01.run_binary(wsrc, ["-O1", "-feof-support"], [97], os.path.join(common.BUILD, "c17", "w"))}, found_input=True)
+            else:
+                ctx.log("witness end-in-accepting-state-behind-rejecting-end-transition: no longer reproduces (%s)" % wres[:40])
     if rd is not None:
         ctx.coverage["reading_validated_with_end_of_input"] = {"cases": len(rd["cases"]), "certified": rd["okc"], "rejected": rd["nviol"]}
     ctx.coverage.update({
